@@ -112,6 +112,8 @@ pub enum OracleD {
     Staked { oracle: Pubkey, lst_mint: Pubkey, sol_pool: Pubkey },
     /// Kamino pass-through bank: Pyth price account + venue reserve (exchange rate)
     Venue { oracle: Pubkey, reserve: Pubkey },
+    /// same with a Switchboard price account
+    VenueSwb { oracle: Pubkey, reserve: Pubkey },
 }
 impl OracleD {
     /// accounts that follow the bank in the risk-engine remaining accounts
@@ -120,7 +122,7 @@ impl OracleD {
             OracleD::None | OracleD::Fixed => vec![],
             OracleD::Pyth(k) | OracleD::Swb(k) => vec![*k],
             OracleD::Staked { oracle, lst_mint, sol_pool } => vec![*oracle, *lst_mint, *sol_pool],
-            OracleD::Venue { oracle, reserve } => vec![*oracle, *reserve],
+            OracleD::Venue { oracle, reserve } | OracleD::VenueSwb { oracle, reserve } => vec![*oracle, *reserve],
         }
     }
 }
@@ -180,6 +182,9 @@ pub struct World {
     pub last_pre: Shadow,
     /// keep venue reserves refreshed to the current slot whenever oracles are refreshed
     pub venue_autorefresh: bool,
+    /// when set, the next pass-through bank added uses a Switchboard price account with this value
+    /// (the *SwitchboardPull variant of its oracle setup) instead of the Pyth one
+    pub venue_swb_next: Option<SwbPx>,
 }
 
 pub fn wi(x: f64) -> WrappedI80F48 {
@@ -229,6 +234,7 @@ impl World {
             swb: Default::default(),
             last_pre: Shadow::new(),
             venue_autorefresh: true,
+            venue_swb_next: None,
         };
         w.chain.set_time(start_time.max(w.chain.now()));
         let p = w.chain.payer.pubkey();
@@ -366,6 +372,14 @@ impl World {
                 let add = if whole { (x >> 60) << 60 } else { x | (noise & 0xFFFF_FFFF) };
                 let cur = u128::from_le_bytes(r.borrowed_amount_sf);
                 r.borrowed_amount_sf = cur.saturating_add(add).min(u128::MAX >> 8).to_le_bytes();
+                // part of the interest is not the depositors': protocol / referrer / pending referrer fees
+                let cut = add / 10;
+                match noise % 4 {
+                    0 => r.accumulated_protocol_fees_sf = u128::from_le_bytes(r.accumulated_protocol_fees_sf).saturating_add(cut).to_le_bytes(),
+                    1 => r.accumulated_referrer_fees_sf = u128::from_le_bytes(r.accumulated_referrer_fees_sf).saturating_add(cut).to_le_bytes(),
+                    2 => r.pending_referrer_fees_sf = u128::from_le_bytes(r.pending_referrer_fees_sf).saturating_add(cut).to_le_bytes(),
+                    _ => {}
+                }
             }),
             ix::VenueKind::Solend => self.edit_solend_reserve(&kk.reserve, |r| {
                 let wad: u128 = 1_000_000_000_000_000_000;
@@ -374,6 +388,10 @@ impl World {
                 let add = if whole { (x / wad) * wad } else { x | (noise & 0xFFFF_FFFF) };
                 let cur = u128::from_le_bytes(r.liquidity_borrowed_amount_wads);
                 r.liquidity_borrowed_amount_wads = cur.saturating_add(add).min(u128::MAX >> 8).to_le_bytes();
+                if noise % 2 == 0 {
+                    let f = u128::from_le_bytes(r.liquidity_accumulated_protocol_fees_wads);
+                    r.liquidity_accumulated_protocol_fees_wads = f.saturating_add(add / 10).to_le_bytes();
+                }
             }),
             ix::VenueKind::Drift => self.edit_spot_market(&kk.reserve, |m| {
                 // deposit interest accrues: the cumulative index grows (tokens backing it arrive through `venue_repaid`)
@@ -661,7 +679,11 @@ impl World {
     pub async fn add_bank_kamino(&mut self, group: usize, mint: usize, cfg: marginfi::state::kamino::KaminoConfigCompact, px: PythPx, liq: u64, col: u64, seed: u64) -> Result<usize, TxOut> {
         use kamino_mocks::state::{MinimalObligation, MinimalReserve};
         let oracle = self.next_kp().pubkey();
-        self.set_pyth(&oracle, px);
+        let swb = self.venue_swb_next.take();
+        match swb {
+            Some(sp) => self.set_swb(&oracle, sp),
+            None => self.set_pyth(&oracle, px),
+        }
         let market = self.next_kp().pubkey();
         let reserve = self.next_kp().pubkey();
         let (lma, _) = crate::venue::lending_market_authority(&market);
@@ -690,7 +712,7 @@ impl World {
         self.plant(&reserve, Account { lamports: 100_000_000, data: crate::venue::reserve_bytes(&r), owner: crate::venue::KAMINO, executable: false, rent_epoch: 0 });
         let mut cfg = cfg;
         cfg.oracle = oracle;
-        cfg.oracle_setup = OracleSetup::KaminoPythPush;
+        cfg.oracle_setup = if swb.is_some() { OracleSetup::KaminoSwitchboardPull } else { OracleSetup::KaminoPythPush };
         let (ixn, b) = ix::add_bank_kamino(gk, admin.pubkey(), p, mk, seed, reserve, obligation, prog, cfg, vec![ix::ro(oracle), ix::ro(reserve)]);
         let out = self.raw_send(&[ixn], &[&admin]).await;
         if !out.ok() {
@@ -706,7 +728,8 @@ impl World {
         o.deposits[0].deposit_reserve = reserve;
         self.plant(&obligation, Account { lamports: 100_000_000, data: crate::venue::obligation_bytes(&o), owner: crate::venue::KAMINO, executable: false, rent_epoch: 0 });
         self.refresh(&[b, k.lv, k.iv, k.fv, gk, supply]).await;
-        self.banks.push(BankD { key: b, group, mint, oracle: OracleD::Venue { oracle, reserve }, k, venue: Some(kk) });
+        let od = if swb.is_some() { OracleD::VenueSwb { oracle, reserve } } else { OracleD::Venue { oracle, reserve } };
+        self.banks.push(BankD { key: b, group, mint, oracle: od, k, venue: Some(kk) });
         Ok(self.banks.len() - 1)
     }
     /// deposit through whatever instruction the bank's kind requires
@@ -752,7 +775,11 @@ impl World {
     pub async fn add_bank_drift(&mut self, group: usize, mint: usize, cfg: marginfi::state::drift::DriftConfigCompact, px: PythPx, cum: u128, market_index: u16, seed: u64) -> Result<usize, TxOut> {
         use drift_mocks::state::{MinimalSpotMarket, MinimalUser, MinimalUserStats};
         let oracle = self.next_kp().pubkey();
-        self.set_pyth(&oracle, px);
+        let swb = self.venue_swb_next.take();
+        match swb {
+            Some(sp) => self.set_swb(&oracle, sp),
+            None => self.set_pyth(&oracle, px),
+        }
         let state = self.next_kp().pubkey();
         let sm_key = self.next_kp().pubkey();
         let (signer, _) = crate::venue::drift_signer();
@@ -774,7 +801,7 @@ impl World {
         self.plant(&sm_key, Account { lamports: 100_000_000, data: crate::venue::spot_market_bytes(&m), owner: crate::venue::DRIFT, executable: false, rent_epoch: 0 });
         let mut cfg = cfg;
         cfg.oracle = oracle;
-        cfg.oracle_setup = OracleSetup::DriftPythPull;
+        cfg.oracle_setup = if swb.is_some() { OracleSetup::DriftSwitchboardPull } else { OracleSetup::DriftPythPull };
         let (ixn, b) = ix::add_bank_drift(gk, admin.pubkey(), p, mk, seed, sm_key, prog, cfg, vec![ix::ro(oracle), ix::ro(sm_key)]);
         let out = self.raw_send(&[ixn], &[&admin]).await;
         if !out.ok() {
@@ -794,7 +821,8 @@ impl World {
         self.plant(&stats, Account { lamports: 100_000_000, data: sd, owner: crate::venue::DRIFT, executable: false, rent_epoch: 0 });
         let kk = ix::VenueKeys { kind: ix::VenueKind::Drift, market: state, lma: signer, reserve: sm_key, obligation: user, supply: vault, col_mint: stats, col_supply: Pubkey::default(), user_collateral: Pubkey::default() };
         self.refresh(&[b, k.lv, k.iv, k.fv, gk, vault]).await;
-        self.banks.push(BankD { key: b, group, mint, oracle: OracleD::Venue { oracle, reserve: sm_key }, k, venue: Some(kk) });
+        let od = if swb.is_some() { OracleD::VenueSwb { oracle, reserve: sm_key } } else { OracleD::Venue { oracle, reserve: sm_key } };
+        self.banks.push(BankD { key: b, group, mint, oracle: od, k, venue: Some(kk) });
         Ok(self.banks.len() - 1)
     }
     /// Solend pass-through bank over a planted reserve / obligation served by `venue::solend_entry`.
@@ -802,7 +830,11 @@ impl World {
     pub async fn add_bank_solend(&mut self, group: usize, mint: usize, cfg: marginfi::state::solend::SolendConfigCompact, px: PythPx, liq: u64, col: u64, seed: u64) -> Result<usize, TxOut> {
         use solend_mocks::state::SolendMinimalReserve;
         let oracle = self.next_kp().pubkey();
-        self.set_pyth(&oracle, px);
+        let swb = self.venue_swb_next.take();
+        match swb {
+            Some(sp) => self.set_swb(&oracle, sp),
+            None => self.set_pyth(&oracle, px),
+        }
         let market = self.next_kp().pubkey();
         let reserve = self.next_kp().pubkey();
         let (lma, _) = crate::venue::solend_market_authority(&market);
@@ -828,7 +860,7 @@ impl World {
         self.plant(&reserve, Account { lamports: 100_000_000, data: crate::venue::solend_reserve_bytes(&r), owner: crate::venue::SOLEND, executable: false, rent_epoch: 0 });
         let mut cfg = cfg;
         cfg.oracle = oracle;
-        cfg.oracle_setup = OracleSetup::SolendPythPull;
+        cfg.oracle_setup = if swb.is_some() { OracleSetup::SolendSwitchboardPull } else { OracleSetup::SolendPythPull };
         let (ixn, b, obligation) = ix::add_bank_solend(gk, admin.pubkey(), p, mk, seed, reserve, prog, cfg, vec![ix::ro(oracle), ix::ro(reserve)]);
         let out = self.raw_send(&[ixn], &[&admin]).await;
         if !out.ok() {
@@ -839,7 +871,8 @@ impl World {
         let od = crate::venue::solend_obligation_bytes(&market, &k.lva, &reserve, seed_col, self.chain.clock.slot);
         self.plant(&obligation, Account { lamports: 100_000_000, data: od, owner: crate::venue::SOLEND, executable: false, rent_epoch: 0 });
         self.refresh(&[b, k.lv, k.iv, k.fv, gk, supply]).await;
-        self.banks.push(BankD { key: b, group, mint, oracle: OracleD::Venue { oracle, reserve }, k, venue: Some(kk) });
+        let od = if swb.is_some() { OracleD::VenueSwb { oracle, reserve } } else { OracleD::Venue { oracle, reserve } };
+        self.banks.push(BankD { key: b, group, mint, oracle: od, k, venue: Some(kk) });
         Ok(self.banks.len() - 1)
     }
 
